@@ -14,6 +14,12 @@ def extra(tier, seed, rng, res, broken):
         A = ''.join('a' if i == cs else 'n' for i in range(30))
         base = 'pre: new 20 %sh- | @20 hit %d | new 1 %sh%d' % (N, cs, A, _c04.LEVEL_OF(cs))
         cases += [base + ' ;; ' + s for s in _c04.preemption_schedules(2, [8, 4], 2 if (tier == 'quick' and not broken) else 3)]
+    # two emitters, each with its own default collector that accepts the callsite, hit it for the first time together: the
+    # one that finds the registration in progress must still deliver (every schedule with few preemptions)
+    for cs, other in ((0, 'a'), (13, 't')):
+        A = ''.join('a' if i == cs else 'n' for i in range(30)); B = ''.join(other if i == cs else 'n' for i in range(30))
+        base = 'pre: new 20 %sh- , new 21 %sh- | @20 hit %d | @21 hit %d , hit %d' % (A, B, cs, cs, cs)
+        cases += [base + ' ;; ' + s for s in _c04.preemption_schedules(2, [9, 9], 2 if (tier == 'quick' and not broken) else 3)]
     cases += [_c04.gen_scenario(rng) for _ in range(40 if (tier == 'quick' and not broken) else 600)]
     outs, err = M.run_per_process([M.bin_path('h_race')], cases, timeout=30)
     if err:
@@ -27,7 +33,7 @@ def extra(tier, seed, rng, res, broken):
         res.hist['race first-hit'] = res.hist.get('race first-hit', 0) + 1
         if 'register:computed' in o and ('dispatch:enter' in o or 'rebuild:enter' in o): res.nontrivial.add('race ' + c)
         if v != 'ok':
-            (hard if ('stranded' in v or 'wrong-delivery' in v or 'DEADLOCK' in v or 'PANIC' in v) else soft).append(('race', c, o, 'judge ' + v))
+            (hard if ('stranded' in v or 'wrong-delivery' in v or 'lost-delivery' in v or 'DEADLOCK' in v or 'PANIC' in v) else soft).append(('race', c, o, 'judge ' + v))
     res.spec_failures.extend(hard if hard else soft)
 
 def gen(rng, tier):
